@@ -4,7 +4,8 @@
 //    generated segmentation; the handler's hash must equal that of a fresh in-process parser given
 //    the same bytes in one piece, a malformed request must get the status the one-shot parse gives,
 //    a request over the size limit gets 413 when the crossing segment arrives (the client stops
-//    there) and the NEXT request on that connection must again be parsed as on a fresh one.
+//    there) and the NEXT request on that connection must again be parsed as on a fresh one.  The same
+//    after an error response to a request written in one piece, and after a 500 for a handler that threw.
 //    Domain: exactly one message per element is written (bytes a mutation leaves after the end of
 //    the message are trimmed: on a live connection they are the next message), and an element that
 //    is over the limit AND already an error/complete at a point the server can see is not sent.
@@ -39,8 +40,15 @@ namespace
                 w.send(Http::Code::Ok, "alive");
                 return;
             }
-            w.send(Http::Code::Ok, hash_of(req));
+            // about one request in eleven makes the handler throw (decided by what was parsed, so that the
+            // reference predicts it): the framework answers 500 with the exception's text and must leave the
+            // connection's parser clean for the next request
+            std::string h = hash_of(req);
+            if (throws_for(h))
+                throw std::runtime_error("boom");
+            w.send(Http::Code::Ok, h);
         }
+        static bool throws_for(const std::string& hash) { return fnv1a(hash) % 11 == 0; }
     };
 
     struct Servers
@@ -258,7 +266,12 @@ namespace verif
             bool ok = net::read_message(fd, carry, true, r, 4000, err);
             V_CHECK(ok, want.kind == Outcome::Done ? P + "/timing/no-response" : P + "/timing/no-error-response",
                     what + ": " + err + " (one-shot outcome: " + want.str().substr(0, 60) + ")");
-            if (want.kind == Outcome::Done)
+            if (want.kind == Outcome::Done && Handler::throws_for(want_hash))
+            {
+                V_CHECK(r.status == 500 && r.body == "boom", P + "/handler-exception-not-500", what + ": the handler threw std::runtime_error(\"boom\") but the response is " + std::to_string(r.status) + " \"" + printable(r.body, 60) + "\"; earlier on this connection: " + desc);
+                rep.label("server:handler-threw-then-next");
+            }
+            else if (want.kind == Outcome::Done)
             {
                 V_CHECK(r.status == 200, P + "/segmented-request-refused", what + ": status " + std::to_string(r.status) + " (\"" + printable(r.body, 80) + "\") but the same bytes in one piece parse as a complete request; earlier on this connection: " + desc);
                 V_CHECK(r.body == want_hash, i ? P + "/keepalive-differs-from-fresh" : P + "/segmented-differs-from-oneshot",
@@ -269,7 +282,17 @@ namespace verif
             {
                 V_CHECK(r.status == want.code, P + "/error-status-depends-on-delivery", what + ": status " + std::to_string(r.status) + ", the one-shot parse gives " + std::to_string(want.code) + " (" + want.what + ")");
                 rep.label("server:error-status");
-                break; // what we already wrote after the error point is now being parsed as a new request
+                // A message written in ONE piece reaches onInput whole (loopback, well under one read), and the
+                // reset after the error response drops all of it: the connection is clean and the history goes
+                // on - "answered by the framework with an error - the next request is parsed exactly as it would
+                // be on a fresh connection".  A segmented one may have bytes in flight behind the error point,
+                // which are then (rightly) parsed as a new request: the history ends there.
+                if (cuts.empty() && m.wire.size() <= 2000)
+                {
+                    rep.label("server:error-then-next");
+                    continue;
+                }
+                break;
             }
         }
         if (nontrivial)
